@@ -57,7 +57,10 @@ Sign2(e, ds, m) == IF ds[1] = "none" THEN Stay /\ tlast' = Verdict(e, e.outcome 
 Sign1(e) == Sign2(e, ExtractSign(BFromBE(e.ks), e.idb), MsgOf(e))
 \* verification.  e.ppubs = master public key as given to the library (stored G2 point); e.ks only when ppubs = [ks]P2 (honest key)
 \* honest events carry e.r (the signer's nonce): validity follows from (h, S) = Sign(...) without evaluating a pairing
+\* (an "honest" signature for a (master key, identity) pair that has NO private key cannot exist: such an event -- a broken library signed with the
+\*  point at infinity as key -- is a deviation, not an evaluation error of the specification)
 HonestValid(e, m) == /\ e.honest = 1
+                     /\ ExtractSign(BFromBE(e.ks), e.idb)[1] = "ok"
                      /\ SignWith(GPow(BFromBE(e.ks)), ExtractSign(BFromBE(e.ks), e.idb)[2], m, <<e.r>>, 1) = <<"ok", BFromBE(e.h), Den1(e.s)>>
 FullVerify(e, m) == IF ~(JCanon(e.s) /\ Canon2(e.ppubs)) THEN FALSE
                     ELSE Verify(IF e.keyfault = 0 THEN GPow(BFromBE(e.ks)) ELSE Pairing(GenG1, Den2(e.ppubs)), Den2(e.ppubs), e.idb, m, BFromBE(e.h), Den1(e.s))
